@@ -129,6 +129,26 @@ class Effects(object):
         rec(f.node)
         return out
 
+    def local_import_is_shared_value(self, module, imps):
+        """True if any of the function-local imports of this name binds a module-level value of a
+        package module (a shared table), as opposed to a function, class or external name."""
+        from .srcmodel import PKG
+
+        for level, mod, attr, _node in imps:
+            target = None
+            if level >= 1 and mod in self.repo.modules:
+                target = mod
+            elif level == 0 and mod.startswith(PKG + ".") and mod[len(PKG) + 1 :] in self.repo.modules:
+                target = mod[len(PKG) + 1 :]
+            elif level == 0 and mod == PKG:
+                target = "__init__"
+            if target is None:
+                continue
+            r = self.repo.resolve_global(self.repo.modules[target], attr)
+            if r is not None and r[0] == "value":
+                return True
+        return False
+
     def classify_global(self, module, name):
         r = self.repo.resolve_global(module, name)
         if r is None:
@@ -149,6 +169,7 @@ class Effects(object):
             params.add(f.node.args.kwarg.arg)
         stores = set()
         globs = set()
+        local_imports = {}
         for n in nodes:
             if isinstance(n, ast.Name) and isinstance(n.ctx, (ast.Store, ast.Del)):
                 stores.add(n.id)
@@ -158,7 +179,12 @@ class Effects(object):
             if isinstance(n, (ast.Import, ast.ImportFrom)):
                 for al in n.names:
                     stores.add(al.asname or al.name.split(".")[0])
+                # a function-local "from .constantsN import TABLE" binds the *shared* module object
+                if isinstance(n, ast.ImportFrom):
+                    for al in n.names:
+                        local_imports.setdefault(al.asname or al.name, []).append((n.level, n.module or "", al.name, n))
         info.locals = (params | stores) - globs
+        info.local_imports = local_imports
         outer_locals = set()
         o = f.outer
         while o is not None:
@@ -181,6 +207,8 @@ class Effects(object):
                     return info.alias[expr.id]
                 if expr.id in params:
                     return "param:" + expr.id
+                if expr.id in local_imports and self.local_import_is_shared_value(module, local_imports[expr.id]):
+                    return "global:" + expr.id
                 if expr.id in info.locals or expr.id in outer_locals:
                     return "local:" + expr.id
                 r = self.classify_global(module, expr.id)
@@ -230,6 +258,19 @@ class Effects(object):
                     o_ = origin(n.value)
                     if o_ and o_.startswith(("self.", "global:", "param:")):
                         info.alias[n.targets[0].id] = o_
+                if (
+                    isinstance(n, ast.Assign)
+                    and len(n.targets) == 1
+                    and isinstance(n.targets[0], (ast.Tuple, ast.List))
+                    and isinstance(n.value, (ast.Tuple, ast.List))
+                    and len(n.targets[0].elts) == len(n.value.elts)
+                ):
+                    # a, b = X, Y binds pairwise
+                    for t_, v_ in zip(n.targets[0].elts, n.value.elts):
+                        if isinstance(t_, ast.Name):
+                            o_ = origin(v_)
+                            if o_ and o_.startswith(("self.", "global:", "param:")):
+                                info.alias[t_.id] = o_
                 if isinstance(n, (ast.For, ast.comprehension)) and isinstance(n.target, ast.Name):
                     o_ = origin(n.iter)
                     if o_ and o_.startswith(("self.", "global:")):
